@@ -91,12 +91,20 @@ def _replay_short(cuts):
     from ceos_alos2.volume_directory.io import parse_data as parse_volume
     from vlib import synth
 
-    led = synth.leader()
-    vol = synth.volume()
+    from vlib import specwriter
+
+    # files written from the PINNED layout (independent of the live structs) plus, when the live structs can build them, synthesized ones
+    files = [("leader", specwriter.write("sar_leader", record_lengths=True)[0], parse_leader), ("volume", specwriter.write("volume_directory", params={"nfp": 3})[0], parse_volume)]
+    for name, make, parse in (("leader", synth.leader, parse_leader), ("volume", synth.volume, parse_volume)):
+        try:
+            files.append((name, make(), parse))
+        except AssertionError:
+            pass  # the live structs no longer build a file of the documented size: the pinned-layout file above still applies
     bad = []
     tried = []
-    for name, raw, parse in (("leader", led, parse_leader), ("volume", vol, parse_volume)):
-        for c in sorted(set(cuts + [len(raw) - 1])):
+    for name, raw, parse in files:
+        parse(raw)  # the complete file must parse, else the cuts below prove nothing
+        for c in sorted(set(cuts + [len(raw) - k for k in (1, 2, 4, 8, 9, 16)])):
             if c >= len(raw):
                 continue
             tried.append((name, c))
